@@ -2,6 +2,7 @@ package main
 
 import (
 	"fmt"
+	metav1 "k8s.io/apimachinery/pkg/apis/meta/v1"
 	"sort"
 	"strings"
 	"sync"
@@ -30,26 +31,27 @@ type bindCase struct {
 
 // item kinds (model: C02/Entry.v dBindReq)
 const (
-	itBind        = 0 // Bind = (job, task, node) named by the BindContext
-	itNode        = 1 // node add / update event with this object
-	itTerminating = 2 // pod update: deletionTimestamp set
-	itDelete      = 3 // pod deleted
-	itPodAdd      = 4 // a pod arrives (possibly before its node)
-	itUnbound     = 5 // pod update / resync whose object still has no nodeName (Flag: same resourceVersion)
-	itRemoveNode  = 7 // node deleted (Task = node id)
-	itFlow        = 9 // agent stream: execute the queued binds (pre-binders, Binder.Bind); Fails = tasks whose PreBind fails
+	itBind        = 0  // Bind = (job, task, node) named by the BindContext
+	itNode        = 1  // node add / update event with this object
+	itTerminating = 2  // pod update: deletionTimestamp set
+	itDelete      = 3  // pod deleted
+	itPodAdd      = 4  // a pod arrives (possibly before its node)
+	itUnbound     = 5  // pod update / resync whose object still has no nodeName (Flag: same resourceVersion)
+	itRemoveNode  = 7  // node deleted (Task = node id)
+	itFlow        = 9  // agent stream: execute the queued binds (pre-binders, Binder.Bind); Fails = tasks whose PreBind fails
+	itTermUnbound = 8  // pod update that carries a deletionTimestamp while the object still has no nodeName (Task = pod)
 	itBatch       = 10 // agent stream: execute the queued binds as ONE batch (BATCH_BIND_NUM > 1); Fails = tasks whose PreBind fails, BindFails = tasks whose Binding the binder reports failed
-	itBound       = 6 // the update that shows the pod bound to the node the cache bound it to (delivered only if the cache holds it as Binding)
+	itBound       = 6  // the update that shows the pod bound to the node the cache bound it to (delivered only if the cache holds it as Binding)
 )
 
 type item struct {
-	Kind int64
-	Bind [3]int64
-	Node sched.NodeSpec
-	Task int64
-	Pod  sched.TaskSpec
-	Flag bool
-	Fails []int64
+	Kind      int64
+	Bind      [3]int64
+	Node      sched.NodeSpec
+	Task      int64
+	Pod       sched.TaskSpec
+	Flag      bool
+	Fails     []int64
 	BindFails []int64
 }
 
@@ -84,7 +86,7 @@ func (b bindCase) enc() []int64 {
 		case itNode:
 			n := it.Node
 			out = append(out, n.ID, vh.B(n.Has), n.CPU, n.Mem, n.Pods, n.GPU)
-		case itTerminating, itDelete, itBound, itRemoveNode:
+		case itTerminating, itDelete, itBound, itRemoveNode, itTermUnbound:
 			out = append(out, it.Task)
 		case itUnbound:
 			out = append(out, it.Task, vh.B(it.Flag))
@@ -129,7 +131,7 @@ func decBind(in []int64) bindCase {
 			it.Bind = [3]int64{r.Next(), r.Next(), r.Next()}
 		case itNode:
 			it.Node = sched.NodeSpec{ID: r.Next(), Has: r.Bool(), CPU: r.Next(), Mem: r.Next(), Pods: r.Next(), GPU: r.Next()}
-		case itTerminating, itDelete, itBound, itRemoveNode:
+		case itTerminating, itDelete, itBound, itRemoveNode, itTermUnbound:
 			it.Task = r.Next()
 		case itUnbound:
 			it.Task = r.Next()
@@ -524,6 +526,21 @@ func runBindWith(in []int64, initFam bool) ([]int64, []int64) {
 			curPod[it.Task] = nw
 			evMu.Unlock()
 			sc.UpdatePod(old, nw)
+		case itTermUnbound:
+			// the pod is deleted (graceful: deletionTimestamp set) while its object still has no nodeName
+			evMu.Lock()
+			old := curPod[it.Task]
+			var nw *v1.Pod
+			if old != nil && old.Spec.NodeName == "" {
+				nw = touchedPod(old, true)
+				now := metav1.Now()
+				nw.DeletionTimestamp = &now
+				curPod[it.Task] = nw
+			}
+			evMu.Unlock()
+			if nw != nil {
+				sc.UpdatePod(old, nw)
+			}
 		case itBound:
 			// the binding reached the API server: the pod shows up with its nodeName
 			node := ""
@@ -1150,6 +1167,46 @@ func genBind(rng *vh.Rng, n int, emit func(id string, sel int, in []int64, kind 
 		emit(fmt.Sprintf("bind-readd-releasing-%d", i), 2, b.enc(), "bind/cache/readd-releasing", true,
 			map[string]any{"directed": "node holding a terminating pod removed and re-added, then a bind that fits only into the terminating pod's room", "items": len(b.Items)})
 	}
+	ur := rng.Fork()
+	for i := 0; i < max(4, n/50); i++ {
+		b := termInFlightCase(ur.Fork())
+		emit(fmt.Sprintf("bind-term-inflight-%d", i), 2, b.enc(), "bind/cache/term-inflight", true,
+			map[string]any{"directed": "bind in flight, its still unbound pod object gets a deletionTimestamp, then a bind that fits only into its room", "items": len(b.Items)})
+	}
+}
+
+// termInFlightCase (directed, seeded mutant C02-r9-1): p1 takes most of the node, and while its bind
+// is in flight its object -- nodeName still empty -- is updated with a deletionTimestamp (optionally
+// after a plain update); the cache must keep the reservation: p2, which fits only into p1's room, is
+// refused, a small p3 fits; optionally p1's delete event follows and p2 is aimed at the node again.  Variant: the same update
+// reaches a pod that has no bind in flight yet.
+func termInFlightCase(r *vh.Rng) bindCase {
+	var b bindCase
+	cpu := int64(r.Range(3, 6)) * 1000
+	b.Nodes = []sched.NodeSpec{{ID: 1, Has: true, CPU: cpu, Mem: 32 << 20, Pods: 20}}
+	if r.Chance(1, 2) {
+		b.Nodes = append(b.Nodes, sched.NodeSpec{ID: 2, Has: true, CPU: 4000, Mem: 32 << 20, Pods: 20})
+	}
+	p := cpu - int64(r.Range(1, 2))*500
+	b.Tasks = []sched.TaskSpec{{ID: 1, Job: 1, Role: 1, CPU: p, Mem: 1 << 20, Status: sched.SPending},
+		{ID: 2, Job: 1, Role: 1, CPU: p, Mem: 1 << 20, Status: sched.SPending},
+		{ID: 3, Job: 1, Role: 1, CPU: 250, Mem: 1 << 20, Status: sched.SPending}}
+	b.Jobs = []sched.JobSpec{{ID: 1, Queue: 1}}
+	b.Workers = int64(r.Range(1, 3))
+	b.Exact = true
+	if r.Chance(1, 4) {
+		b.Items = append(b.Items, item{Kind: itTermUnbound, Task: 3}) // no bind in flight: a terminating pod without node
+	}
+	b.Items = append(b.Items, item{Kind: itBind, Bind: [3]int64{1, 1, 1}})
+	if r.Chance(1, 3) {
+		b.Items = append(b.Items, item{Kind: itUnbound, Task: 1, Flag: r.Chance(1, 2)})
+	}
+	b.Items = append(b.Items, item{Kind: itTermUnbound, Task: 1}, item{Kind: itBind, Bind: [3]int64{1, 2, 1}}, item{Kind: itBind, Bind: [3]int64{1, 3, 1}})
+	if r.Chance(1, 2) {
+		// the pod finally goes away: its room is free again
+		b.Items = append(b.Items, item{Kind: itDelete, Task: 1}, item{Kind: itBind, Bind: [3]int64{1, 2, 1}})
+	}
+	return b
 }
 
 // readdReleasingCase (directed, seeded mutant C02-r8-1): a node that holds a TERMINATING pod (and
